@@ -2,7 +2,7 @@
    (handlers/dhcp4_spoofer/subnet_lease.go: newSubnet, loadByteArray, saveConfig;
    dhcp4.go: Config.New, configChanged), at the level of the parsed YAML document.
    Mirrors the Go code statement by statement (as repaired by the three fix commits of DESIGN 11 #23:
-   nil-subnet guard, IPv4-only LAN, temp file + rename), remaining defects included.
+   nil-subnet guard, IPv4-only LAN, temp file + rename, checksum line), remaining defects included.
    Executable; no proofs here. *)
 From PV Require Import Base.Prelude Model.LeaseBase.
 Open Scope N_scope.
@@ -125,11 +125,17 @@ Record cfg : Type := {
   c_dns : addr           (* config.DNSServer *)
 }.
 
-(* what loadConfig gets from the file system and yaml.Unmarshal *)
+(* the integrity line of the file (repair 4 of #23): saveConfig writes a first line "checksum: <sha256 of the
+   rest>"; loadByteArray rejects the text when that line is present and does not match; texts that do not
+   start with "checksum: " (older files) are not checked.  The hash itself is not modelled: the verdict is an
+   input, computed by the harness with an independent implementation of the same rule. *)
+Inductive sumstate : Type := SumAbsent | SumOk | SumBad.
+
+(* what loadConfig gets from the file system, the integrity check and yaml.Unmarshal *)
 Inductive input : Type :=
 | NoFile                 (* fname == "" : all results nil, no error *)
 | ReadErr                (* ReadFile error (missing file) or yaml.Unmarshal error *)
-| Doc (d : doc).
+| Doc (st : sumstate) (d : doc).   (* integrity verdict on the text + what yaml.Unmarshal returned *)
 
 Record dstate : Type := { d_n1 : subnet; d_n2 : subnet; d_table : table }.
 
@@ -160,7 +166,8 @@ Definition loadConfig (captured : sess) (i : input) : res (option subnet * optio
   match i with
   | NoFile => Ok (None, None, None)
   | ReadErr => Err EOther
-  | Doc d => ('(n1, n2, t) <- load captured d ;; Ok (Some n1, Some n2, Some t))%res
+  | Doc SumBad _ => Err EOther                           (* lease file checksum mismatch *)
+  | Doc _ d => ('(n1, n2, t) <- load captured d ;; Ok (Some n1, Some n2, Some t))%res
   end.
 
 Definition new (c : cfg) (captured : sess) (i : input) : res dstate :=
